@@ -188,14 +188,20 @@ impl RADAU {
         let expm = 2.0 / 3.0;
         let n = y.len();
         // (component-wise, applied exactly once per component; a scalar tolerance is
-        // expanded first)
+        // expanded first.  With rtol = 0 the ratio atol/rtol is undefined, so a purely
+        // absolute tolerance is left as given.)
         let mut rtol_v = Vec::with_capacity(n);
         let mut atol_v = Vec::with_capacity(n);
         for i in 0..n {
-            let quot = atol[i] / rtol[i];
-            let r = 0.1 * rtol[i].powf(expm);
-            rtol_v.push(r);
-            atol_v.push(r * quot);
+            if rtol[i] > 0.0 {
+                let quot = atol[i] / rtol[i];
+                let r = 0.1 * rtol[i].powf(expm);
+                rtol_v.push(r);
+                atol_v.push(r * quot);
+            } else {
+                rtol_v.push(rtol[i]);
+                atol_v.push(atol[i]);
+            }
         }
         let rtol = Tolerance::Vector(rtol_v);
         let atol = Tolerance::Vector(atol_v);
